@@ -33,11 +33,11 @@ class _WholeMatch:
         return self.string[self.s:self.e]
 
 
-def _synthetic_type(name, span, pg, prec, inner):
+def _synthetic_type(name, span, pg, prec, inner, width=1):
     from mistletoe.span_token import SpanToken
     from mistletoe.core_tokens import MatchObj
     s, e = span
-    ps, pe = (s, e) if pg == 0 else (s + 1, e - 1)
+    ps, pe = (s, e) if pg == 0 else (s + width, e - width)
 
     class T(SpanToken):
         precedence = prec
@@ -239,6 +239,63 @@ class PairTable(EnumPart):
         return Out(nt=overlap, labels=labels)
 
 
+class DelimiterTable(EnumPart):
+    """One token X with delimiters three characters wide against every other span Y inside X's span: Y in the parse
+    group nests; Y touching a delimiter conflicts with X and the statement's rule applies (higher precedence wins, the
+    earlier match on a tie) -- also when Y lies wholly inside a delimiter."""
+    name = 'delimiter-table'
+    rule = ('X = [1,11) with parse group [4,8) against every Y = [i,j) with 1 < i < j <= 11 (Y starts after X) x precedences 3..7 each x '
+            'parse_inner of X x both registration orders = 4 500 cases; expected: Y inside the parse group nests (if X parses inner), any other '
+            'Y conflicts and the higher precedence wins, X on a tie; non-trivial = Y touches a delimiter of X')
+
+    def items(self, tier, k, n):
+        idx = 0
+        for i in range(2, 11):
+            for j in range(i + 1, 12):
+                for px, py in itertools.product(range(3, 8), repeat=2):
+                    for inner in (True, False):
+                        for order in (0, 1):
+                            idx += 1
+                            if idx % n == k:
+                                yield {'y': [i, j], 'px': px, 'py': py, 'inner': inner, 'order': order}
+
+    def check(self, c):
+        ys, ye = c['y']
+        X = _synthetic_type('A', (1, 11), 1, c['px'], c['inner'], width=3)
+        Y = _synthetic_type('B', (ys, ye), 0, c['py'], False)
+        types = [X, Y] if c['order'] == 0 else [Y, X]
+        in_group = 4 <= ys and ye <= 8
+        touches = not in_group
+        if in_group:
+            want = [['A', [['B', []]]]] if c['inner'] else None        # (a container that does not parse inner: statement silent)
+        else:
+            want = [['A', []]] if c['px'] >= c['py'] else [['B', []]]
+        where = 'group' if in_group else ('closing-delimiter' if ys >= 8 else ('opening-delimiter' if ye <= 4 else 'straddles'))
+        labels = ('y:' + where, 'asserted' if want is not None else 'invariants-only')
+        try:
+            doc = parse_under(types, DTEXT)
+            toks = doc.children[0].children
+            got = shape(toks)
+            errs = tiling_errors(toks, 0, len(DTEXT), DTEXT, {'A', 'B'})
+        except Exception as exc:
+            return Out(Fail('no-raise', 'raised ' + exc_sig(exc), case=c, error=repr(exc)), nt=touches, labels=labels)
+        if errs:
+            return Out(Fail('tiling', 'invariant', case=c, errors=errs[:4], shape=got), nt=touches, labels=labels)
+        if want is not None and got != want:
+            return Out(Fail('precedence', 'delimiter outcome ' + where, case=c, where=where, expected=want, actual=got), nt=touches, labels=labels)
+        return Out(nt=touches, labels=labels)
+
+    def known_class(self, case, fail):
+        # recorded finding F50: a match lying wholly inside another match's closing delimiter is dropped even when its precedence is higher
+        d = fail.detail if hasattr(fail, 'detail') else {}
+        if fail.sig.endswith('delimiter outcome closing-delimiter') and case['py'] > case['px']:
+            return 'match_in_closing_delimiter'
+        return None
+
+
+DTEXT = 'abcdefghijkl'
+
+
 class NestedPairTable(PairTable):
     """The same pairs inside the parse group of a third custom token: exercises the child-resolution path
     (eval_new_child) with the outcome table of the statement."""
@@ -380,12 +437,13 @@ class C16(Prop):
     rule = PairTable.rule
     assumptions = (
         'custom tokens record their match offsets in __init__ (the documented extension point); synthetic matches use core_tokens.MatchObj',
-        'outcome is asserted only where the statement is unambiguous: not for equal starts, a match lying wholly in the other\'s delimiter '
-        'text, or a containing token that does not parse its inner text (invariants are still checked there)',
+        'outcome is asserted only where the statement is unambiguous: not for equal starts or for a containing token that does not parse '
+        'its inner text (invariants are still checked there); a match that touches or lies inside a delimiter of the other conflicts with '
+        'it and is decided by precedence (delimiter-table; the pair tables, whose delimiters are one character wide, leave that cell open)',
     )
 
     def parts(self):
-        return [PairTable(), NestedPairTable(), RandomSets()]
+        return [PairTable(), NestedPairTable(), DelimiterTable(), RandomSets()]
 
 
 PROP = C16()
